@@ -135,12 +135,12 @@ func splice(s []byte, at, del int, ins []byte) []byte {
 
 var bigCounts = [][]byte{
 	{0xfd, 0xff, 0xff},
-	{0xfe, 0xff, 0xff, 0xff, 0x00},                               // 2^24-1
-	{0xfe, 0x00, 0x00, 0x00, 0x01},                               // 2^24
-	{0xfe, 0x01, 0x00, 0x00, 0x01},                               // 2^24+1
-	{0xfe, 0xff, 0xff, 0xff, 0xff},                               // 2^32-1
-	{0xff, 0xff, 0xff, 0xff, 0xff, 0xff, 0xff, 0xff, 0x7f},       // 2^63-1
-	{0xff, 0xff, 0xff, 0xff, 0xff, 0xff, 0xff, 0xff, 0xff},       // 2^64-1
+	{0xfe, 0xff, 0xff, 0xff, 0x00},                             // 2^24-1
+	{0xfe, 0x00, 0x00, 0x00, 0x01},                             // 2^24
+	{0xfe, 0x01, 0x00, 0x00, 0x01},                             // 2^24+1
+	{0xfe, 0xff, 0xff, 0xff, 0xff},                             // 2^32-1
+	{0xff, 0xff, 0xff, 0xff, 0xff, 0xff, 0xff, 0xff, 0x7f},     // 2^63-1
+	{0xff, 0xff, 0xff, 0xff, 0xff, 0xff, 0xff, 0xff, 0xff},     // 2^64-1
 	{0xfe, 0x00, 0x00, 0x10, 0x00}, {0xfd, 0x00, 0x08}, {0xfc}, // 2^20, 2048, 252
 }
 
@@ -593,7 +593,16 @@ func (ch *child) runGroup(g int, skip int, fuzzPerGroup int) {
 			return false, false
 		}
 		id := fmt.Sprintf("f%d.%d", g, j)
-		return ch.runCase(id, c, kind, input, seed)
+		acc, same := ch.runCase(id, c, kind, input, seed)
+		if c.fix != nil && kind != "seed" {
+			if fixed := c.fix(input); fixed != nil && !bytes.Equal(fixed, input) {
+				j++
+				a2, s2 := ch.runCase(fmt.Sprintf("f%d.%d", g, j), c, kind+"+integrity-fields-repaired", fixed, seed)
+				ch.obs["mutants_offered_with_repaired_integrity_fields"]++
+				acc, same = acc || a2, same || s2
+			}
+		}
+		return acc, same
 	}
 	run("seed", seed)
 	var sites []int
